@@ -958,7 +958,7 @@ impl HelperAttributeForCompareOp {
                 ignore: args.ignore,
                 reverse: args.reverse,
                 by: args.by.map(|x| x.value),
-                key: args.key.map(|x| Template::new(x.value)),
+                key: args.key.map(|x| Template::new(x.value)).transpose()?,
                 bounds: Bounds::from(&args.bound),
             })
         } else {
@@ -1070,8 +1070,13 @@ impl<T: Parse> Parse for TemplateOf<T> {
 struct Template(TokenStream);
 
 impl Template {
-    fn new(input: impl ToTokens) -> Self {
-        Self(input.to_token_stream())
+    fn new(input: Expr) -> Result<Self> {
+        let this = Self(input.to_token_stream());
+        // `$` is replaced by a parenthesized expression, so it must stand where an expression can.
+        if parse2::<Expr>(this.apply(quote!((__placeholder)))).is_err() {
+            bail!(input.span(), "`$` can only be used as an expression in `key = ...`");
+        }
+        Ok(this)
     }
     fn apply(&self, value: TokenStream) -> TokenStream {
         replace_tokens(
